@@ -63,3 +63,65 @@ def check(chk, cases):
     if rc != 0:
         chk.fail_no_input("the extracted model and the Coq definitions disagree on a case (extraction or driver defect): %s" % (o + e).strip()[-300:],
                           {"theorem": "extraction cross-check", "file": path, "log": (o + e)[-2000:]})
+
+
+ACT = {"CE": "ACallerEnq", "CW": "ACallerWait", "CRC": "ACallerRetCtx", "CRF": "ACallerRetFin", "LER": "ALoopEnqRecv",
+       "LEC": "ALoopEnqClosed", "LT": "ALoopTick", "LDR": "ALoopDrain", "LF": "ALoopFinish"}
+
+
+def act_term(toks):
+    if toks[0] in ACT:
+        return ACT[toks[0]]
+    if toks[0] == "LD":
+        return "ALoopDispatch %s" % toks[1]
+    if toks[0] == "LDN":
+        return "ALoopDone %s" % toks[1]
+    if toks[0] == "WC":
+        return "AWorkerCheck %s" % toks[1]
+    if toks[0] == "WP":
+        return "AWorkerPost %s" % toks[1]
+    if toks[0] == "WX":
+        return "AWorkerExit %s" % toks[1]
+    if toks[0] == "X":
+        return "ACancel %s" % toks[1]
+    if toks[0] == "WE":
+        o = {"ok": "OOk", "exit": "OGoexit"}.get(toks[2]) or "(OErr %s)" % toks[3]
+        return "AWorkerEnd %s %s" % (toks[1], o)
+    raise ValueError("unknown action %s" % toks)
+
+
+def check_sched(chk, traces):
+    """traces: replay scripts the extracted binary accepted; the same runs inside Coq"""
+    d = os.path.join(common.CACHE, "coqcases")
+    os.makedirs(d, exist_ok=True)
+    L = ["From CffVerif Require Import SchedModel.", ""]
+    for i, tr in enumerate(traces):
+        cfg, jobs, acts, nev = None, [], [], 0
+        for line in tr["script"]:
+            toks = line.split()
+            if not toks:
+                continue
+            if toks[0] == "CFG":
+                cfg = toks[1:5]
+            elif toks[0] == "JOB":
+                jobs.append("{| jdeps := %s; jctx := %s |}" % (coq_list(toks[2:]), toks[1]))
+            elif toks[0] == "ACT":
+                a, _, evs = " ".join(toks[1:]).partition("|")
+                acts.append(act_term(a.split()))
+                nev += len([e for e in evs.split(";") if e.strip()])
+        final = "true" if "final=true" in tr["verdict"] else "false"
+        L.append("Definition c%d : cfg := {| cN := %s; ccoe := %s; cgated := %s; cprog := [%s]; cwctx := %s |}." % (
+            i, cfg[0], "true" if cfg[1] == "1" else "false", "true" if cfg[2] == "1" else "false", "; ".join(jobs), cfg[3]))
+        L.append("Example trace%d : match run c%d (init c%d) [%s] with Some s => (is_final s, length (log s)) | None => (false, 0) end = (%s, %d)." % (
+            i, i, i, "; ".join(acts), final, nev))
+        L.append("Proof. vm_compute. reflexivity. Qed.")
+    path = os.path.join(d, "sched_%s.v" % chk.pid)
+    open(path, "w").write("\n".join(L) + "\n")
+    rc, o, e = common.run("timeout 900 coqc -Q %s CffVerif %s" % (common.COQ, path), cwd=d, check=False, timeout=1000)
+    chk.cov.setdefault("correspondence", {})["extraction_cross_check"] = {
+        "kind": "observed executions that the extracted replay accepted are re-run inside Coq (run, vm_compute): same finality and same number of events",
+        "traces": len(traces), "ok": rc == 0}
+    chk.count(len(traces))
+    if rc != 0:
+        chk.fail_no_input("the extracted scheduler model and the Coq definition disagree on an observed trace (extraction or driver defect): %s" % (o + e).strip()[-300:],
+                          {"theorem": "extraction cross-check (scheduler)", "file": path, "log": (o + e)[-2000:]})
